@@ -44,7 +44,7 @@ type vzConfig struct {
 	maxSteps      int
 	// fault rates, per thousand scheduler steps (0 = kind disabled in this run)
 	rDup, rReplay, rEarlyTimer, rCrash, rPartition, rCorrupt, rEquivocate, rStall int
-	oracles                                                              map[string]bool
+	oracles                                                                       map[string]bool
 }
 
 type vzMsg struct {
@@ -548,7 +548,7 @@ type vzBroadcaster struct {
 	pc chan tmconsensus.PrecommitSparseProof
 }
 
-func (b vzBroadcaster) OutgoingProposedHeaders() chan<- tmconsensus.ProposedHeader     { return b.ph }
+func (b vzBroadcaster) OutgoingProposedHeaders() chan<- tmconsensus.ProposedHeader       { return b.ph }
 func (b vzBroadcaster) OutgoingPrevoteProofs() chan<- tmconsensus.PrevoteSparseProof     { return b.pv }
 func (b vzBroadcaster) OutgoingPrecommitProofs() chan<- tmconsensus.PrecommitSparseProof { return b.pc }
 
@@ -1071,8 +1071,10 @@ func (w *vzWorld) maybeFault(live []*vzTimer, nActs int) (fireTimerEarly bool) {
 
 // shutdown stops every node and waits for the goroutines (still inside the bubble).
 func (w *vzWorld) shutdown() {
-	w.rootCancel()
+	// first let everything parked run to quiescence, then cancel (see the state machine harness)
 	w.s.Stop()
+	vsimcore.Wait()
+	w.rootCancel()
 	for _, nd := range w.nodes {
 		if nd.ready != nil {
 			<-nd.ready
